@@ -441,21 +441,42 @@ CHECK = {
             "two faces meeting at an edge, sphere / circle patches (also centred at the sensor), cylinder patches, noisy blobs; 2D and "
             "3D; 8 point types; k in 3..30; the 6 compute overloads; normal set default-constructed or zero-initialised), half of "
             "them with a rotated copy of the cloud; every case is non-trivial (>= k+1 points, each point one estimate)",
-    "trusted": ["hand-written model coq/NormalsModel.v tied by differential execution (this run); neighbour lists are the ones the "
-                "implementation's kd-tree returned (validated against brute force by the oracle; the search itself is C08)",
+    "trusted": ["SYNTACTIC TIE: translate/tr_C09_normals.py regenerates coq/gen/SrcNormals.v from the clang AST of "
+                "NormalAndCurvatureEstimation.cpp on every run (flip helper, computeNormalReliability, planeEstimation_, the six compute "
+                "overloads; Vector2d/3d, HomogeneousCoordinates2d/3d); coq/SrcTieC09.v proves the generated terms equal to coq/NormalsModel.v "
+                "for every numeric dictionary. Trusted there: the translator's reading of the AST (a fixed-size Eigen object = the tuple of "
+                "its components; .dot/.norm/.sum accumulated from the left from zero; size_t as unbounded Z; std::vector as a function of the "
+                "index); the float instantiations are covered by the correspondence run only",
+                "neighbour lists: the kd-tree query is an abstract function in the tie; in the run they are the ones the implementation's "
+                "kd-tree returned (validated against brute force by the oracle; the search itself is C08)",
                 "eigen-solver = oracle function with contract C = V diag(l) V^T, V orthogonal, l ascending (hypothesis of the theorems); "
                 "executed as an unverified Gallina cyclic Jacobi whose contract residual is evaluated on every call (max in coverage.normals)",
                 "extraction (ExtrOcamlBasic), ocaml/numf.ml, ocaml/drv_C09.ml, harness/C09.cpp, numpy float64 oracle in checks/C09.py"],
     "manifest": {
-        "text": "Proved in Coq over the reals, for any eigen-solver result meeting its contract: the written normal has unit Cartesian "
-                "length; after the flip n.p <= 0 (all point types, with the repaired Cartesian flip test; the original full-vector test is "
-                "refuted for homogeneous types with w = 1); n^T C n = l0 <= x^T C x for every unit x (least-variance direction); a "
-                "neighbourhood on a hyperplane gives n = +- the plane normal and curvature 0; 0 <= curvature <= 1/DIM; rotating the "
-                "covariance rotates the least-variance direction (up to sign). The model runs against the implementation on generated "
-                "clouds (same neighbour lists, Gallina Jacobi contract-checked) and a float64 oracle decides the property text.",
-        "note": "Trusted: Coq kernel, real-number axioms, hand-written model tied by differential execution, Eigen's solver (contract "
-                "assumed in theorems, observed through the oracle), extraction, harness, oracle. Float rounding observed, not proved.",
-        "technique": "Coq proof (linear algebra over R under an eigen-decomposition contract) + extracted-model correspondence",
+        "text": "SYNTACTIC TIE: the Gallina terms of planeEstimation_ (kd-tree query, loop accumulating the mean over the k neighbour "
+                "indexes, second loop accumulating the covariance, division by k, DIM x DIM block handed to the eigen-solver oracle), of "
+                "flipNormalTowardOriginCoordinate, computeNormalReliability and the six compute overloads are regenerated from the clang AST "
+                "of the current source on every run (4 double point types) and proved equal to the model for EVERY numeric dictionary "
+                "(C09_source_tie_plane_estimation, C09_source_tie_compute_V2/V3/H2/H3, _fewer_outputs, _own_kdtree): output entry j of "
+                "compute() is the model's estimate_point on the neighbours the kd-tree returned for point j, first eigenvector, flip test on "
+                "the Cartesian part with '>', caller's w kept, curvature l0/sum, reliability; other entries untouched. Corollary on the "
+                "generated terms over the reals (C09_source_normals_unit_and_facing): |n| = 1 and n.p <= 0 for every written normal, under "
+                "the eigen-solver contract. Proved in Coq over the reals about the model, for any eigen-solver result meeting its contract: "
+                "unit Cartesian length; n.p <= 0 (all point types, repaired Cartesian flip test; the original full-vector test is refuted "
+                "for homogeneous types with w = 1); n^T C n = l0 <= x^T C x for every unit x; a neighbourhood on a hyperplane gives n = +- "
+                "the plane normal and curvature 0; 0 <= curvature <= 1/DIM; rotation equivariance in full: rotating neighbours and point "
+                "about the sensor leaves l0 and the curvature unchanged and turns the normal into +- the rotated one whenever l0 is simple, "
+                "with sign + whenever n.p <> 0 (C09_rotation_equivariance), also for the whole cloud on the generated compute() when the "
+                "kd-tree returns the same indexes for the turned cloud (C09_source_rotation_equivariance). The extracted model also runs "
+                "against the implementation on generated clouds (8 point types, same neighbour lists, Gallina Jacobi contract-checked) and "
+                "a float64 oracle decides the property text.",
+        "note": "Trusted: Coq kernel, real-number axioms, the translator's reading of the clang AST and of Eigen's reductions (above), "
+                "Eigen's solver (contract assumed in theorems, observed through the oracle), the kd-tree as an abstract function returning "
+                "k indexes (C08 is about the search), extraction, harness, oracle. Float rounding observed, not proved; the tie is by "
+                "computation, so a re-association of the floating-point sums in the source breaks it (it changes the float result). "
+                "Not proved: equality of the two neighbour index lists under rotation (distance ties), full spectrum / reliability equivariance.",
+        "technique": "Coq proof (linear algebra over R under an eigen-decomposition contract) + source translator with tie lemmas for "
+                     "every numeric dictionary (loops as folds, pointwise loop invariant) + extracted-model correspondence",
     },
     "assumptions": ["SelfAdjointEigenSolver meets its contract (V orthogonal, eigenvalues ascending, C = V diag V^T)",
                     "the k nearest neighbours include the point itself (as the code does)",
